@@ -381,6 +381,7 @@ pub(crate) fn case_process_len_mismatch<C: Ctx>() {
     let input = [0u8; 3];
     let mut out = [0u8; 3];
     a.p(&input[..il], &mut out[..ol]);
+    vcover!(true, "MUST-NOT: returned normally instead of refusing");
 }
 
 pub(crate) fn case_clone<C: Ctx>() {
